@@ -199,6 +199,7 @@ const (
 	Creation                      // takes no source
 	NonDet                        // output values are not deterministic (random, timestamps)
 	NoSrcOnZero                   // documented: source never subscribed (Take(0), TakeLast(0), RepeatWith(0))
+	KeepsSource                   // hot by configuration: keeps its upstream subscription when the last subscriber leaves (ShareReplay)
 	AggCtx                        // emits derived values at completion (ctx of the completion or any contributing item)
 )
 
